@@ -99,7 +99,7 @@ var c18Universe = func() []c18Obj {
 
 type c18Op struct {
 	// begin, commit, abort, mkrole, rmrole, mkpol, rmpol, attach, assign, unassign,
-	// defsubj, req, reopen
+	// defsubj, file, req, reopen
 	K    string   `json:"k"`
 	R    int      `json:"r,omitempty"`
 	S    int      `json:"s,omitempty"`
@@ -248,6 +248,10 @@ func genC18(t *rapid.T) c18Case {
 			c.Ops = append(c.Ops, c18Op{K: "rmpol", Ps: []int{p}, Salt: salt})
 		case k < 87:
 			c.Ops = append(c.Ops, c18Op{K: "defsubj", S: 3, Salt: salt})
+		case k < 90:
+			// a subject and a policy filed under the same parent that is NOT a role (a
+			// group): changes no outcome
+			c.Ops = append(c.Ops, c18Op{K: "file", R: rapid.IntRange(0, 1).Draw(t, "folder"), S: rapid.IntRange(0, c18Subjects-2).Draw(t, "fl_s"), Ps: []int{pickPol("fl_p")}, Salt: salt})
 		case k < 98:
 			op := c18Op{K: "req", S: rapid.IntRange(0, c18Subjects-1).Draw(t, "rq_s"), Act: rapid.IntRange(0, len(c18Actions)-1).Draw(t, "rq_a"), Salt: salt}
 			for j := rapid.IntRange(0, 4).Draw(t, "rq_n"); j > 0; j-- {
@@ -550,10 +554,10 @@ func runC18(t *testing.T, c c18Case, st *drv.Stats) (fail *drv.Failure) {
 		committed.subj[s] = true
 	}
 	var (
-		tx      gorp.Tx
-		txState *c18State
-		permits, denies         int
-		txChanged               bool
+		tx              gorp.Tx
+		txState         *c18State
+		permits, denies int
+		txChanged       bool
 	)
 	defer func() {
 		if tx != nil {
@@ -1116,6 +1120,25 @@ func runC18(t *testing.T, c c18Case, st *drv.Stats) (fail *drv.Failure) {
 				return refuse(err)
 			}
 			s.subj[op.S] = true
+		case "file":
+			folder := ontology.ID{Type: "group", Key: fmt.Sprintf("00000000-0000-4000-8000-00000000f0%02x", op.R)}
+			wr := w.otg.NewWriter(tx)
+			if err := wr.DefineResource(ctx, folder); err != nil {
+				return refuse(err)
+			}
+			// a missing subject or policy is refused by the ontology; nothing changes
+			if err := wr.DefineRelationship(ctx, folder, ontology.RelationshipTypeParentOf, c18SubjIDs[op.S]); err != nil {
+				st.Probe("op_error_file_subject_" + c18ErrKind(err))
+			} else {
+				st.Probe("subject_filed_under_non_role_parent")
+			}
+			for _, p := range op.Ps {
+				if err := wr.DefineRelationship(ctx, folder, ontology.RelationshipTypeParentOf, policy.OntologyID(c18Key(p))); err != nil {
+					st.Probe("op_error_file_policy_" + c18ErrKind(err))
+				} else {
+					st.Probe("policy_filed_under_non_role_parent")
+				}
+			}
 		case "req":
 			drawn = append(drawn, op)
 			if len(drawn) > 6 {
@@ -1229,6 +1252,8 @@ func c18OpString(op c18Op) string {
 		return fmt.Sprintf("%s r%d -> %s", op.K, op.R, c18SubjIDs[op.S])
 	case "defsubj":
 		return "defsubj " + c18SubjIDs[op.S].String()
+	case "file":
+		return fmt.Sprintf("file %s and policies %v under non-role folder %d", c18SubjIDs[op.S], op.Ps, op.R)
 	case "req":
 		return fmt.Sprintf("req %s %s %v", c18SubjIDs[op.S], c18Actions[op.Act], op.Objs)
 	}
